@@ -44,6 +44,8 @@ def column0(kind, xs):
         return di.Vector([v if v != NAV else 7 for v in xs], int)
     if kind == "float":
         return di.Vector([math.nan if v == NAV else v / 2 for v in xs], float)
+    if kind == "float32":
+        return di.Vector(np.array([math.nan if v == NAV else v / 2 for v in xs], dtype=np.float32))
     if kind == "date":
         return di.Vector([None if v == NAV else BASE + datetime.timedelta(days=v) for v in xs], "datetime64[D]")
     if kind == "datetime":
